@@ -153,6 +153,11 @@ impl ChainService {
                 block_number, block_hash, err
             );
             self.shared.block_status_map().remove(&block_hash);
+            #[cfg(ckb_verif)]
+            crate::verif::emit(
+                "InsertFail",
+                &format!("\"b\":{}", crate::verif::h(&block_hash)),
+            );
             lonely_block.execute_callback(Err(err));
             return;
         }
